@@ -1278,6 +1278,12 @@ func main() {
 					panic(err)
 				}
 				runHHWCase(o, d, "replay")
+			case "fprint":
+				var d fprintDesc
+				if err := json.Unmarshal(in.Desc, &d); err != nil {
+					panic(err)
+				}
+				runFprintCase(o, d, "replay")
 			}
 		}
 		return
@@ -1285,6 +1291,7 @@ func main() {
 	designed(o)
 	designedTime(o)
 	designedHHW(o)
+	designedFprint(o)
 	r := hx.NewRand(f.Seed)
 	for i := 0; i < f.N; i++ {
 		switch k := i % 20; {
@@ -1304,6 +1311,8 @@ func main() {
 			}
 		case k == 19 && i%40 == 39:
 			runHHWCase(o, genHHW(r, f.Tier == "thorough"), "gen")
+		case k == 18:
+			runFprintCase(o, genFprint(r), "gen")
 		default:
 			runEscCase(o, genEsc(r), "gen")
 		}
